@@ -1,2 +1,4 @@
 pub mod fx;
 pub mod fixed;
+pub mod elem;
+pub mod rng;
